@@ -192,7 +192,10 @@ func CompleteResponse(id datatransfer.TransferID, isAccepted bool, isPaused bool
 
 // FromNet can read a network stream to deserialize a GraphSyncMessage
 func FromNet(r io.Reader) (datatransfer.Message, error) {
-	tm, err := bindnodeRegistry.TypeFromReader(r, &TransferMessage1_1{}, dagcbor.Decode)
+	// a stream may carry several messages back to back: decode exactly one object and leave
+	// whatever follows it for the next call instead of rejecting it as trailing content
+	decode := dagcbor.DecodeOptions{AllowLinks: true, DontParseBeyondEnd: true}.Decode
+	tm, err := bindnodeRegistry.TypeFromReader(r, &TransferMessage1_1{}, decode)
 	if err != nil {
 		return nil, err
 	}
